@@ -2,15 +2,18 @@
 (* Trace validation for C16.  The harness executes schedules on a real Broker (loopback TCP, raw    *)
 (* MQTT connections O, N, M of one client id) and logs the operations and, at every point where      *)
 (* nothing it started is still running, an observation of the id's owner:                            *)
-(*   connect {c,clean} / sub {c,f} / drop {c} / admin                                                *)
+(*   connect {c,clean} / sub {c,f,q} / drop {c} / admin                                              *)
 (*   obs {cur, reg, live, got, bad}     cur: the connection the harness holds to be the owner;       *)
 (*       reg: the connection registered in Broker.clients ("none", "?" if unknown), live: the         *)
 (*       session map holds an open session and it is the registered connection's; got: the filters    *)
-(*       on whose topic a message published over HTTP was received by cur; stopics: the filters the    *)
+(*       on whose topic a message published over HTTP with QoS0 was received by cur, got1: the same     *)
+(*       with QoS1 (a filter subscribed with QoS1 delivers it; one subscribed with QoS0 may); stopics:    *)
+(*       the filters the                                                                                  *)
 (*       owner's session object holds; bad: the harness' own                                            *)
 (*       list of discrepancies                                                                          *)
 (*   kick {c, reg, eof}                 after an admin delete was processed: is c still registered,    *)
-(*       and did the broker close c's connection when c next sent a packet                              *)
+(*       and did the broker close c's connection when c next sent a packet; byok: the second client      *)
+(*       (another client id: the last path segment of the deleted one) is still registered and answers    *)
 (* An observation without discrepancies must be exactly what the contract of MqttSession says; an     *)
 (* observation with discrepancies is accepted only if the contract indeed says otherwise (it is then   *)
 (* a violation certified by the specification, reported by the driver).                                 *)
@@ -26,17 +29,19 @@ Frozen == UNCHANGED <<ivars, ev>>
 TReset == /\ IsEvent("reset") /\ Frozen
           /\ kcur' = "none" /\ kex' = FALSE /\ kclean' = FALSE /\ ksubs' = {} /\ kst' = [c \in ConnSet |-> "idle"] /\ kdel' = FALSE
 TConnect == IsEvent("connect") /\ Frozen /\ \E r \in BOOLEAN : KConnect(E.c, E.clean, r)
-TSub     == IsEvent("sub") /\ Frozen /\ KSubscribe(E.c, E.f)
+TSub     == IsEvent("sub") /\ Frozen /\ KSubscribe(E.c, E.f, E.q)
 TDrop    == IsEvent("drop") /\ Frozen /\ KDrop(E.c)
 TAdmin   == IsEvent("admin") /\ Frozen /\ KAdminDelete
 
 ToSet(s) == {s[i] : i \in 1..Len(s)}
+Q1 == {x.f : x \in {y \in ksubs : y.q = 1}}
 ObsOK == /\ E.cur = kcur
-         /\ kcur # "none" => (E.reg = kcur /\ E.live /\ ToSet(E.got) = ksubs /\ ToSet(E.stopics) = ksubs)
+         /\ kcur # "none" => /\ E.reg = kcur /\ E.live /\ ToSet(E.got) = Fs(ksubs) /\ ToSet(E.stopics) = Fs(ksubs)
+                              /\ Q1 \subseteq ToSet(E.got1) /\ ToSet(E.got1) \subseteq Fs(ksubs)
 TObs == /\ IsEvent("obs") /\ UNCHANGED svars
         /\ E.cur = kcur
         /\ (Len(E.bad) = 0) <=> ObsOK
-KickOK == kst[E.c] = "kicked" => (~E.reg /\ E.eof)
+KickOK == kst[E.c] = "kicked" => (~E.reg /\ E.eof /\ E.byok)       \* that client is disconnected, and no other
 TKick == /\ IsEvent("kick") /\ UNCHANGED svars
          /\ kst[E.c] = "kicked"
          /\ (Len(E.bad) = 0) <=> KickOK
